@@ -33,6 +33,8 @@ inductive BEv
   | busy (lvl : Bool)
   | delay (u : DUnit) (n : Nat)
   | read (cs dc len : Nat)
+  | fail (cs dc len : Nat)          -- the failed `SpiBus::write` (injected fault)
+  | failFlush                        -- the failed `SpiBus::flush`
   deriving Repr, Inhabited, DecidableEq
 
 structure BEnv where
@@ -43,6 +45,7 @@ structure BEnv where
   busyLvl : Bool := false
   cs : Nat := 0             -- chips currently selected (mask), as the pins stand
   dc : Nat := 0
+  fault : Option Nat := none   -- the (k+1)-th fallible bus call (write or flush) from now on fails
   deriving Repr, Inhabited
 
 def BEnv.raiseBusy (e : BEnv) : BEnv :=
@@ -120,6 +123,70 @@ def runB (e : BEnv) : List BAct → List BEv × BEnv × Res
     let r := stepB e a
     match r.2.2 with
     | .ok => let r' := runB r.2.1 as; (r.1 ++ r'.1, r'.2.1, r'.2.2)
+    | x => (r.1, r.2.1, x)
+
+
+/-! ### the same with an injected bus fault (C04): `spi.write(..)?` / `spi.flush()?` -/
+
+def BEnv.tick (e : BEnv) : Bool × BEnv :=
+  match e.fault with
+  | some 0 => (true, { e with fault := none })
+  | some (k + 1) => (false, { e with fault := some k })
+  | none => (false, e)
+
+/-- one chip of `get_status` (index k: M1, S1, M2, S2): pins, write 0x71, flush, read -/
+def statusOne (e : BEnv) (k : Nat) : List BEv × BEnv × Res :=
+  let line := if k < 2 then 1 else 2
+  let eLow : BEnv := { e with cs := e.cs ||| 2 ^ k, dc := e.dc &&& (3 - line) }
+  let t := eLow.tick
+  if t.1 then ([.delay .ns 100, .fail eLow.cs eLow.dc 1], t.2, .err) else
+  let t2 := t.2.tick
+  if t2.1 then ([.delay .ns 100, .w eLow.cs eLow.dc [(1, 1)] [0x71], .failFlush], t2.2, .err) else
+  let eHigh : BEnv := { t2.2 with dc := t2.2.dc ||| line }
+  ([.delay .ns 100, .w eLow.cs eLow.dc [(1, 1)] [0x71], .flush, .delay .ns 100, .delay .ns 100,
+    .read eHigh.cs eHigh.dc 1, .delay .ns 100, .delay .ns 100],
+   { eHigh with cs := eHigh.cs &&& (15 - 2 ^ k), dc := eHigh.dc &&& (3 - line) }, .ok)
+
+def stepBF (e : BEnv) : BAct → List BEv × BEnv × Res
+  | .sw control data =>
+    if e.ctl ≠ control then
+      let t := e.tick                      -- `self.peris.spi.flush()?`
+      if t.1 then ([.failFlush], t.2, .err) else
+      let e1 := t.2.select control
+      let t2 := e1.tick                    -- `self.peris.spi.write(data)`
+      if t2.1 then ([.flush, .delay .ns 100, .delay .ns 100, .fail e1.cs e1.dc data.length], t2.2, .err)
+      else ([.flush, .delay .ns 100, .delay .ns 100, .w e1.cs e1.dc [(data.length, 1)] data], t2.2.sent data, .ok)
+    else
+      let t2 := e.tick
+      if t2.1 then ([.fail e.cs e.dc data.length], t2.2, .err)
+      else ([.w e.cs e.dc [(data.length, 1)] data], t2.2.sent data, .ok)
+  | .flush =>
+    let t := e.tick
+    if t.1 then ([.failFlush], t.2, .err) else ([.flush], { t.2 with ctl := 0, cs := 0, dc := 0 }, .ok)
+  | .getStatus =>
+    -- `self.control_state = 0xFF` first; an error leaves it (and the pins) as they are
+    let e0 : BEnv := { e with ctl := 255 }
+    let r0 := statusOne e0 0
+    if r0.2.2 ≠ .ok then r0 else
+    let r1 := statusOne r0.2.1 1
+    if r1.2.2 ≠ .ok then (r0.1 ++ r1.1, r1.2.1, r1.2.2) else
+    let r2 := statusOne r1.2.1 2
+    if r2.2.2 ≠ .ok then (r0.1 ++ r1.1 ++ r2.1, r2.2.1, r2.2.2) else
+    let r3 := statusOne r2.2.1 3
+    if r3.2.2 ≠ .ok then (r0.1 ++ r1.1 ++ r2.1 ++ r3.1, r3.2.1, r3.2.2) else
+    (r0.1 ++ r1.1 ++ r2.1 ++ r3.1, { r3.2.1 with ctl := 0 }, .ok)
+  | .resetSeq =>
+    -- `reset()` is all pin traffic: no fallible bus call
+    let r := stepB e .resetSeq
+    (r.1, { r.2.1 with fault := e.fault }, r.2.2)
+  | a => stepB e a
+
+def runBF (e : BEnv) : List BAct → List BEv × BEnv × Res
+  | [] => ([], e, .ok)
+  | a :: as =>
+    let r := stepBF e a
+    match r.2.2 with
+    | .ok => let r' := runBF r.2.1 as; (r.1 ++ r'.1, r'.2.1, r'.2.2)
     | x => (r.1, r.2.1, x)
 
 /-! ## the driver's programs -/
@@ -355,6 +422,10 @@ def parseBEv (line : String) : Option (List BEv) :=
     let bs ← parseHex hex
     pure [BEv.w cs dc lens bs]
   | ["L"] => some [.flush]
+  | ["F", "flush", _] => some [.failFlush]
+  | ["F", tag, n] => do
+    let (cs, dc) ← parseTag tag
+    pure [.fail cs dc (← n.toNat?)]
   | ["R0", l] => some [.rst 0 (l == "1")]
   | ["R1", l] => some [.rst 1 (l == "1")]
   | ["B", l] => some [.busy (l == "1")]
@@ -378,7 +449,7 @@ def runOpsB (sc : Scenario) : List (List String) → BEnv → List BOp
     match prog a with
     | none => [{ evs := [], res := .unsup, pins := s!"c{hexDigit e.cs}d{e.dc}" }]
     | some acts =>
-      let r := runB e acts
+      let r := if e.fault.isSome then runBF e acts else runB e acts
       let t : BOp := { evs := r.1, res := .ofRes r.2.2, pins := s!"c{hexDigit r.2.1.cs}d{r.2.1.dc}" }
       match r.2.2 with
       | .ok | .err => t :: runOpsB sc as r.2.1
@@ -502,6 +573,8 @@ def BEv.show : BEv → String
   | .delay .ms n => s!"D ms {n}"
   | .delay .ns n => s!"D ns {n}"
   | .read cs dc n => s!"I c{hexDigit cs}d{dc} {n}"
+  | .fail cs dc n => s!"F c{hexDigit cs}d{dc} {n}"
+  | .failFlush => "F flush"
 
 def compareB : List BOp → List BOp → Nat → Option String
   | [], [], _ => none
@@ -524,7 +597,7 @@ def compareB : List BOp → List BOp → Nat → Option String
   | [], i :: _, k => some s!"op={k} missing in model (impl {i.res.toString})"
 
 def mkBEnv (sc : Scenario) : BEnv :=
-  { sched := sc.sched, raise := sc.raise, busyLvl := sc.busyLvl }
+  { sched := sc.sched, raise := sc.raise, busyLvl := sc.busyLvl, fault := sc.fault }
 
 /-- C15 verdict lines of one scenario against a trace (implementation or model) -/
 def c15Verdicts (sc : Scenario) (t : List BOp) : Nat × List String :=
@@ -561,5 +634,46 @@ def c10Verdicts (sc : Scenario) (t : List BOp) : Nat × List String :=
     | a :: as, o :: os, k, n, acc => go as os (k + 1) (n + 1) (acc ++ (c10B a o).map (· ++ s!" op={k}"))
     | _, _, _, n, acc => (n, acc)
   go sc.ops t 0 0 []
+
+end EpdVerif.Big
+
+namespace EpdVerif.Big
+open EpdVerif
+
+/-! ## C04 on the 12.48in driver -/
+
+def BEv.isFail : BEv → Bool
+  | .fail .. => true
+  | .failFlush => true
+  | _ => false
+
+/-- fail-stop: an operation hit by the injected fault reports the error, attempts no further bus
+    call and does not panic -/
+def c04B (a : List String) (t : BOp) : List String :=
+  let site := s!"epd12in48b_v2/{a.headD "?"}"
+  if !(t.evs.any BEv.isFail) then [] else
+  let after := (t.evs.dropWhile fun e => !e.isFail).drop 1
+  let traffic := after.any fun e => match e with
+    | .w .. => true | .read .. => true | .flush => true | .fail .. => true | .failFlush => true | _ => false
+  (if t.res == .err then [] else [s!"site={site} reason=error-not-reported got={t.res.toString} want=err"]) ++
+  (if traffic then [s!"site={site} reason=traffic-after-failure got=bus-call want=none"] else [])
+
+def c04Verdicts (sc : Scenario) (t : List BOp) : Nat × List String :=
+  let rec go : List (List String) → List BOp → Nat → Nat → List String → Nat × List String
+    | a :: as, o :: os, k, n, acc => go as os (k + 1) (n + 1) (acc ++ (c04B a o).map (· ++ s!" op={k}"))
+    | _, _, _, n, acc => (n, acc)
+  go sc.ops t 0 0 []
+
+/-- what the recovery suffix (operations from index `from_` on) put on the bus, with the pins of
+    every transfer, its results and the pins it left: compared with the never-failed twin -/
+def mixStr (h : UInt64) (s : String) : UInt64 :=
+  s.toUTF8.toList.foldl (fun a b => (a ^^^ b.toUInt64) * 1099511628211) h
+
+def suffixDigest (t : List BOp) (from_ : Nat) : String :=
+  let ops := t.drop from_
+  let h := ops.foldl (fun acc o =>
+    let acc := (canonB o.evs).foldl (fun a e => mixStr a (BEv.show e)) acc
+    mixStr (mixStr acc o.res.toString) o.pins) (14695981039346656037 : UInt64)
+  s!"ops={ops.length} trace={String.ofList (Nat.toDigits 16 h.toNat)}"
 
 end EpdVerif.Big
